@@ -198,8 +198,8 @@ CHECKS = {
     },
     'C19': {
         'category': 'other',
-        'technique': 'case-complete comparison of emitted text for alternative spellings over abstract operands + ground obligations on grammar.txt\'s own syntax tree',
-        'text': 'For each pair of the statement the real front end maps both spellings (over abstract operands) to objects that emit identical code for every child-flag '
+        'technique': 'contract-based deductive verification of the documented meaning of every operator / constructor spelling on the objects the real front end builds (spelled contracts, all child behaviours) + case-complete comparison of emitted text for alternative spellings + ground obligations on syntax trees of layout variants',
+        'text': 'Every operator and constructor spelling of the statement is proved, over abstract operands, to have the meaning the documentation gives it (class contract with the documented options, on what the real front end builds). For each pair of the statement the real front end maps both spellings (over abstract operands) to objects that emit identical code for every child-flag '
                 'combination and both conventions; alternative separators / statement separators / comments / line breaks / parentheses / ignore(d) / bare expression '
                 'give identical syntax trees on representatives; unparenthesised operators group as grammar.txt says (13 grouping cases + the table rows themselves).',
         'design_ref': 'DESIGN.md 6 C19',
